@@ -152,3 +152,38 @@ def run(ctx):
         ctx.case(zoo.describe(info), nontrivial=info["G"].number_of_edges() >= 3,
                  sample={"class": name, "edges": [list(e) for e in info["G"].edges()], "ignore": info["ignore"]})
         ctx.dist(f"{name}:{'node' if info['node'] else 'edge'}")
+    run_families(ctx)
+
+
+def bottleneck_scc(nA, nB):
+    """an SCC with halves A and B, ONE edge from A to B and all |A|*|B| edges back: a single covering walk exists but
+    has to cross the A->B edge once per back edge (high repetition count)"""
+    A = [f"a{i}" for i in range(nA)]; B = [f"b{i}" for i in range(nB)]
+    G = nx.DiGraph(); G.graph["id"] = "graph 1"
+    G.add_edge("s", A[0]); G.add_edge(A[0], "t"); G.add_edge(A[0], B[0])
+    for a in A[1:]: G.add_edge(a, A[0])
+    for b in B[1:]: G.add_edge(B[0], b)
+    for b in B:
+        for a in A: G.add_edge(b, a)
+    return G
+
+
+def run_families(ctx):
+    import flowpaths as fp
+    sizes = [(1, 2), (2, 2), (2, 3), (3, 3)] + ([(3, 4), (4, 4)] if ctx.tier == "thorough" or True else [])
+    for nA, nB in sizes:
+        G = bottleneck_scc(nA, nB)
+        rep = {"family": "bottleneck_scc", "nA": nA, "nB": nB, "edges": [list(e) for e in G.edges()]}
+        ctx.case(["bottleneck", nA, nB], nontrivial=True); ctx.count("E2_repetition_family", "cases")
+        try:
+            m = fp.MinPathCoverCycles(G, solver_options={"threads": THREADS}); m.solve()
+            km = fp.kPathCoverCycles(G, k=1, solver_options={"threads": THREADS}); km.solve()
+        except Exception as e:
+            ctx.report(f"cover model raised {e!r}", rep); continue
+        if not m.is_solved():
+            ctx.report("MinPathCoverCycles not solved although one walk covers every edge", rep); continue
+        walks = m.get_solution()["walks"]
+        if props.covers(G, walks) is not None or len(walks) != 1:
+            ctx.report(f"MinPathCoverCycles returned {len(walks)} walks ({props.covers(G, walks)}); one covering walk exists", rep); continue
+        if not km.is_solved():
+            ctx.report("kPathCoverCycles(k=1) not solved although the width is 1", rep)
